@@ -9,6 +9,7 @@
      X <i> <keep>   crash inside the append, keep bytes -> x:<seq> | x:PANIC | x:-
      T <b>          truncate_before(b)                  -> t | t:-
      F <x>          persist_flushed_seq(x)              -> f
+     FN             persist_flushed_seq(next_seq())     -> f | f:-
      G <x> <keep>   crash inside the flushed-file write -> g
      C              crash at an operation boundary      -> c
      K <n>          newest segment cut to n bytes       -> k
@@ -80,6 +81,12 @@ let run_line (line0 : string) : string =
     | ["F"; x] ->
         let (_, ok) = apply (OPersist (n_of_string x)) in
         if verdicts then flag ok else "f"
+    | ["FN"] ->
+        (match !st.st_wal with
+         | None -> if verdicts then "1" else "f:-"
+         | Some w ->
+           let (_, ok) = apply (OPersist w.w_next) in
+           if verdicts then flag ok else "f")
     | ["G"; x; keep] ->
         let (_, ok) = apply (OCrashPersist (n_of_string x, n_of_string keep)) in
         if verdicts then flag ok else "g"
